@@ -170,7 +170,7 @@ func (b *Bits) Update(l *slog.Logger, i uint64) bool {
 	// stays small and avoids paying for the slow paths' slog argument-build
 	// stack frame on every call. The bit read/test/write is inlined to
 	// touch the backing word once.
-	if i == b.current+1 {
+	if i != 0 && i-1 == b.current {
 		pos := i & b.lengthMask
 		word := pos >> 6
 		mask := uint64(1) << (pos & 63)
@@ -189,8 +189,9 @@ func (b *Bits) Update(l *slog.Logger, i uint64) bool {
 func (b *Bits) updateSlow(l *slog.Logger, i uint64) bool {
 	// If i is a jump, adjust the window, record lost, update current, and return true
 	if i > b.current {
+		// i > b.current here, compare distances so counters near the top of the u64 range don't overflow
 		end := i
-		if end > b.current+b.length {
+		if end-b.current > b.length {
 			end = b.current + b.length
 		}
 		count := end - b.current
@@ -216,7 +217,7 @@ func (b *Bits) updateSlow(l *slog.Logger, i uint64) bool {
 		}
 
 		// Anything past the new window can never be backfilled, so it's lost.
-		if i > b.current+b.length {
+		if i-b.current > b.length {
 			lost += int64(i - b.current - b.length)
 		}
 		b.lostCounter.Inc(lost)
